@@ -156,6 +156,17 @@ def run_world_impl(case, chk: C.Check | None):
                 and type(s2) is Shop and s2.items == shop.items and s2.discount == shop.discount
                 and s2.sell_back_rate == shop.sell_back_rate):
             fail("dict-roundtrip", "to_dict/from_dict does not give an equivalent object")
+        # the round trip is a law of EVERY inventory value (inventory_dict_roundtrip has no hypothesis): also of one that
+        # carries more than its limit because the limit was lowered after the items were taken
+        if inv.items:
+            d = inv.to_dict()
+            d["max_weight"] = inv.current_weight / 2
+            low = Inventory.from_dict(d)
+            low.items = [dict(x) for x in inv.items]
+            i3 = Inventory.from_dict(low.to_dict())
+            if i3.items != low.items or i3.max_weight != low.max_weight:
+                fail("dict-roundtrip:over-limit", f"an inventory over its limit ({low.current_weight} > {low.max_weight}) comes back "
+                                                  f"with {len(i3.items)} of {len(low.items)} items")
     except Exception as e:  # noqa
         fail(f"dict-roundtrip-raises:{type(e).__name__}", f"to_dict/from_dict raised {type(e).__name__}: {e}")
     return obs, list(inv.items), list(shop.items)
